@@ -133,8 +133,7 @@ def main(argv=None):
     print(f'  ... {len(new)-5} further recorded violations not written out; counts per site: {agg["viol_count"]}')
 
   wall = time.time() - t0
-  n_viol = sum(n for s, n in agg['viol_count'].items()) - sum(
-      1 for v in agg['violations'] if core.match_finding(v, pid, findings) is not None)
+  n_viol = len(new)
   coverage = dict(
       states=len(agg['states']),
       transitions=agg['transitions'],
